@@ -120,7 +120,7 @@ func c09Gen(t *rapid.T) c09Case {
 			in.Ops = []string{"w:insp-" + in.Name + ".out:x", "w:intruder-" + in.Name + ":y"}
 		}
 		rule := func(label string) [][]string {
-			switch rapid.IntRange(0, 6).Draw(t, label) {
+			switch rapid.IntRange(0, 8).Draw(t, label) {
 			case 0, 1, 2:
 				return [][]string{match, {"ALLOW", pre + "insp-*"}, {"ALLOW", "*.link"}, {"DISALLOW", "*"}}
 			case 3:
@@ -129,6 +129,11 @@ func c09Gen(t *rapid.T) c09Case {
 				return [][]string{{"CREATE", pre + "insp-*"}, {"MODIFY", pre + pick(label+"mod")}, match, {"ALLOW", "*.link"}, {"DISALLOW", "*"}}
 			case 5:
 				return [][]string{{"DELETE", pre + pick(label+"del")}, {"ALLOW", "*"}}
+			case 7:
+				// REQUIRE after everything was consumed: the artifact is no longer in the queue
+				return [][]string{{"ALLOW", "*"}, {"REQUIRE", pre + pick(label+"late")}}
+			case 8:
+				return [][]string{match, {"ALLOW", pre + "insp-*"}, {"ALLOW", "*.link"}, {"REQUIRE", pre + "ghost.file"}, {"DISALLOW", "*"}}
 			default:
 				return [][]string{{"ALLOW", "*"}}
 			}
